@@ -1,9 +1,22 @@
 (** C18 -- Output is exactly what the executed print statements denote, in order. *)
 From Pakhi Require Import Base Float64 Syntax Tables Lexer Interp.
-From Pakhi.Proofs Require Import Output Faults.
+From Pakhi.Proofs Require Import OutputFrame Output Faults.
 Local Open Scope nat_scope.
 
 (* what was written stays written, in order: every statement and every expression only appends *)
+(* no statement but a print statement writes: an expression that calls no user function (built-ins included: none of them
+   writes) leaves the output exactly as it was, and so does every statement other than দেখাও / _দেখাও whose expressions call
+   no user function -- a call runs other statements, to which this applies in turn *)
+Theorem C18_expressions_without_user_calls_write_nothing : forall code f e m v m', nocall e = true ->
+  eval code f e m = Ok (v, m') -> m_out m' = m_out m.
+Proof. intros code f e m v m' Hn H. pose proof (eval_keeps_output code f e m Hn) as K. rewrite H in K. exact K. Qed.
+Print Assumptions C18_expressions_without_user_calls_write_nothing.
+
+Theorem C18_only_print_statements_write : forall code f m s m', stmt_at code (m_pc m) = Some s -> quiet s = true ->
+  interp code f m = Ok m' -> m_out m' = m_out m.
+Proof. intros code f m s m' Hs Hq H. pose proof (quiet_statement_keeps_output code f m s Hs Hq) as K. rewrite H in K. exact K. Qed.
+Print Assumptions C18_only_print_statements_write.
+
 Theorem C18_output_only_grows : forall code fuel e m,
   match eval code fuel e m with
   | Ok (_, m') => ext (m_out m) (m_out m')
